@@ -51,7 +51,8 @@ Fixpoint shape_ok (inh : bool) (t : ptree) : bool :=
 
 (* writeKids + writePagesDictDepth with ctx.Write.SelectedPages: leaves that are not kept are
    left out of /Kids, inner nodes stay (skip is always false), /Count is recomputed.
-   keep = all: the plain write.  TRIM: keep = selected.  REMOVEPAGES: keep = not selected. *)
+   keep = all: the plain write, the only use in pdfcpu as it is (nothing sets SelectedPages;
+   trim, remove pages, collect and split go through ExtractPages, modelled below as extract). *)
 Fixpoint select (keep : N -> bool) (t : ptree) : ptree :=
   match t with
   | PLeaf id d => PLeaf id d
@@ -67,6 +68,27 @@ Fixpoint select (keep : N -> bool) (t : ptree) : ptree :=
                       end) kids in
       PNode (dset kCount (OInt (count_list kids')) d) kids'
   end.
+
+(* ExtractPages / AddPages (trim, remove pages, collect, split): a fresh page tree root whose kids
+   are the requested pages in the requested order (repetitions allowed), each page dict with its
+   effective MediaBox written into it (PageDict consolidates the inherited attributes) *)
+Fixpoint eff_leaves (inh : option obj) (t : ptree) : list (N * dict) :=
+  match t with
+  | PLeaf id d =>
+      [(id, match dfind kMediaBox d with
+            | Some _ => d
+            | None => match inh with Some b => dset kMediaBox b d | None => d end
+            end)]
+  | PNode d kids => flat_map (eff_leaves (orelse (dfind kMediaBox d) inh)) kids
+  end.
+Definition find_leaf (id : N) (ls : list (N * dict)) : list ptree :=
+  match find (fun p => N.eqb (fst p) id) ls with
+  | Some (i, d) => [PLeaf i d]
+  | None => []
+  end.
+Definition extract (sel : list N) (t : ptree) : ptree :=
+  let kids := flat_map (fun id => find_leaf id (eff_leaves None t)) sel in
+  PNode [(kType, OName kPages); (kCount, OInt (count_list kids))] kids.
 
 (* InsertBlankPages: a new leaf with its own MediaBox before / after every selected leaf, in the
    same /Kids array; counts recomputed on the way up *)
@@ -169,8 +191,11 @@ Definition ids (t : ptree) : list N := map fst (leaves t).
 Definition root_count (t : ptree) : Z :=
   match t with PNode d _ => match dfind kCount d with Some (OInt z) => z | _ => (-1)%Z end | _ => (-1)%Z end.
 Definition memN' (n : N) (l : list N) : bool := existsb (N.eqb n) l.
-Definition op_trim (sel : list N) (t : ptree) : ptree := select (fun id => memN' id sel) t.
-Definition op_remove (sel : list N) (t : ptree) : ptree := select (fun id => negb (memN' id sel)) t.
+Definition op_trim (sel : list N) (t : ptree) : ptree :=
+  extract (filter (fun id => memN' id sel) (ids t)) t.
+Definition op_remove (sel : list N) (t : ptree) : ptree :=
+  extract (filter (fun id => negb (memN' id sel)) (ids t)) t.
+Definition op_collect (sel : list N) (t : ptree) : ptree := extract sel t.
 Definition op_write (t : ptree) : ptree := select (fun _ => true) t.
 Definition op_insert (before : bool) (sel : list N) (t : ptree) : ptree :=
   insert_blank before (fun id => memN' id sel) (OArr [OInt 0; OInt 0; OInt 595; OInt 842]) t.
